@@ -40,7 +40,7 @@ var propDefs = map[string]PropDef{
 	"C12": {Classes: []string{"OWN", "POST", "INV"}, Level: "proof", Skip: graphSetPosts},
 	"C13": {Classes: []string{"POST", "LEMMA", "PRE", "INV"}, Level: "proof"},
 	"C14": {Classes: []string{"POST", "INV", "PRE", "LEMMA"}, Level: "proof", Skip: graphSetPosts},
-	"C15": {Classes: []string{"POST", "INV", "PRE", "TERM", "LEMMA"}, Level: "proof"},
+	"C15": {Classes: []string{"SAFE", "POST", "INV", "PRE", "LEMMA"}, Level: "proof"},
 	"C16": {Classes: []string{"POST", "INV", "PRE", "LEMMA"}, Level: "proof", Skip: graphSetPosts},
 	"C17": {Classes: []string{"LOCK"}, Level: "proof"},
 	"C18": {Classes: []string{"FRAME", "POST", "PRE", "OWN", "LEMMA"}, Level: "proof"},
